@@ -29,4 +29,4 @@ Deliverables, all under {wt}/_out/ :
   - patch.diff : output of `git -C {wt} diff` (source change only; keep _out/ out of the diff)
   - demo.py : as above (run with PYTHONPATH={wt} /venv/bin/python {wt}/_out/demo.py)
   - notes.md : 5-10 lines: what the change is, which inputs make it manifest and why the existing tests do not notice.
-Verify yourself before finishing: (a) with the patch applied: test-suite passes and demo.py FAILs; (b) `git -C {wt} stash` (or apply the patch in reverse): demo.py PASSes; then re-apply your patch so the worktree ends in the modified state. Report the final result in a few lines (what you changed, the triggering input). Do not ask questions; make your own decisions.""")
+Verify yourself before finishing: (a) with the patch applied: test-suite passes and demo.py FAILs; (b) with the patch applied in reverse (`git -C {wt} apply -R {wt}/_out/patch.diff`; NEVER use `git stash`: the stash is shared between worktrees): demo.py PASSes; then re-apply your patch (`git -C {wt} apply {wt}/_out/patch.diff`) so the worktree ends in the modified state. Report the final result in a few lines (what you changed, the triggering input). Do not ask questions; make your own decisions.""")
